@@ -76,4 +76,16 @@ CLAIMS = {
           '2000 histories per alphabet. Trusted: TLC, output splitter in lib/c20.py (splits on the declared terminator and separator only).',
   'technique': 'TLA+ model checking (TLC) of the fixing rule vs recount definition + replay of TLC histories through x12norm.main() + TLC trace validation',
  },
+ 'C02': {
+  'text': 'The real maps are exported from the XML in the working tree (lib/mapexport.py, no pyx12 import) into TLC constants. TLC explores DocGen (the language "walk the map in order '
+          'within repeat limits", wrappers transparent) composed with the walker transcription MapWalk for each selected map - BFS over a coarse view with Cap=2 plus random deep walks with Cap=3 - '
+          'and emits, for every abstract generator position, a complete conformant document (every usable segment node and node-to-node transition of the map is covered); each is concretised '
+          'twice (needed elements only / every situational element filled) under rotating delimiter triples and line-break conventions, plus files holding documents of two different maps, and '
+          'validated by the real x12n_document: verdict true, empty error tree, every AK5/IK5 and AK9 = A (T_Accept, TLC). Every walker call of those runs is trace-validated against the '
+          'transcription (T_MapWalk: result node, pops, pushes, error codes in order, counter). Quick: 6 maps; thorough: every loadable indexed map.',
+  'note': '"In order" = strict map order; repeat counts capped (2 / 3); values are proposed by the concretiser per element definition (first listed / first fitting external code, type- and '
+          'length-shaped literals, qualifier-selected date formats) - a wrong proposal would show as a rejection to investigate, never hidden; maps with undefined data elements or an ISA '
+          'version the reader refuses are left to C16; files mixing a 997/999 group with others are not claimed. Trusted: TLC, mapexport, concretiser, recorders in lib/walkcommon.py.',
+  'technique': 'TLA+ model checking (TLC) of map-language generator x walker model + replay of TLC-generated documents into x12n_document + TLC trace validation of outcomes and walker calls',
+ },
 }
